@@ -116,7 +116,7 @@ Section Total.
   Qed.
 
   Lemma np_reduce_loop cur next body l : forall acc, np (reduce_loop rs E d cur next body l acc).
-  Proof. induction l as [|v l IH]; intros acc; cbn [reduce_loop]; [apply np_ret|]. apply np_bind; [apply np_run_body|]. intros [e|a]; [apply np_ret|apply IH]. Qed.
+  Proof. induction l as [|v l IH]; intros acc; cbn [reduce_loop]; [apply np_ret|]. apply np_bind; [apply np_run_body|]. intros [e|a]; [apply np_ret|]. destruct (nested_too_deep a); [apply np_ret|apply IH]. Qed.
 
   Lemma np_coalesce_loop args : np (coalesce_loop rs E d args).
   Proof.
